@@ -678,12 +678,13 @@ Check C04_typst_node_exact : forall (lex : text -> list tok) (bs : list N) n off
   cur_ok bs off -> tn_ok bs (cbyte off) n -> tr lex bs n off = Ok (tr_spec lex bs n).
 Print Assumptions C04_typst_node_exact.
 
-(* ---- ... hence the whole Typst::parse (every top-level expression from OffsetCursor::new) *)
+(* ---- ... hence the whole Typst::parse (every top-level expression from OffsetCursor::new, then the retain filter of
+   b629a93: a token that starts before the end of what was kept so far is dropped) *)
 Theorem C04_typst_exact : forall (lex : text -> list tok) (bs : list N) top,
-  top_ok bs top -> typst_parse lex bs top = Ok (flat_map (tr_spec lex bs) top).
+  top_ok bs top -> typst_parse lex bs top = Ok (typst_retain 0 (flat_map (tr_spec lex bs) top)).
 Proof. exact typst_parse_exact. Qed.
 Check C04_typst_exact : forall (lex : text -> list tok) (bs : list N) top,
-  top_ok bs top -> typst_parse lex bs top = Ok (flat_map (tr_spec lex bs) top).
+  top_ok bs top -> typst_parse lex bs top = Ok (typst_retain 0 (flat_map (tr_spec lex bs) top)).
 Print Assumptions C04_typst_exact.
 
 (* ---- ... and the char span [chars before a, chars before b) denotes exactly the text of the byte range [a, b) typst-syntax
@@ -876,8 +877,56 @@ Example C04_typst_nonvacuous :
   = Ok [mktok (mkspan 0 2) 5%N; mktok (mkspan 3 7) 2%N; mktok (mkspan 9 13) 5%N; mktok (mkspan 15 16) 2001%N; mktok (mkspan 16 19) 2%N] /\
   (* an unwrapped detached span panics, a range off a char boundary panics *)
   typst_parse lex (encode src) [TNode (Some (4, 16)) [TTok None 2%N]] = Panic PUnwrap /\
-  typst_parse lex (encode src) [TLeaf (Some (1, 3)) 2%N] = Panic PUnwrap.
-Proof. exact (conj (proj1 typst_translate_example) (conj (proj2 typst_translate_example) (conj eq_refl eq_refl))). Qed.
+  typst_parse lex (encode src) [TLeaf (Some (1, 3)) 2%N] = Panic PUnwrap /\
+  (* b629a93: a sub-node handed out twice is dropped the second time *)
+  typst_parse lex (encode src) [TNode (Some (4, 16)) [TTok (Some (4, 8)) 2%N; TStr (Some (9, 15)) [34; 97; 92; 34; 98; 34]%N; TTok (Some (4, 8)) 2%N]]
+  = Ok [mktok (mkspan 3 7) 2%N; mktok (mkspan 9 13) 5%N].
+Proof. cbv zeta. split; [exact (proj1 typst_translate_example)|]. split; [exact (proj1 (proj2 typst_translate_example))|]. vm_compute. repeat split; reflexivity. Qed.
+
+(* ---- 3103238 (F34): the emission order of the Typst arms that used to run against the source, as regenerated by
+   typst.py from the match arms (it raises when Expr::Set / Expr::Show / parse_args_ignored leave these shapes): Set = target,
+   args, condition; Show = selector, transform; ignored call arguments stay in text order.  The abstract tree the model
+   translates is built by the harness in exactly this order and compared token by token with Typst::parse (stream U); since
+   b629a93 source order of the result is enforced by the retain filter at the end of Typst::parse and PROVED for any tree
+   (C04_typst_source_order below); typst.py pins the filter's text. *)
+Theorem C04_typst_arm_order :
+  typst_arm_order = [("Set"%string, ["target"%string; "args"%string; "condition"%string]);
+                     ("Show"%string, ["selector"%string; "transform"%string])] /\
+  typst_ignored_args_in_text_order = true /\ typst_parse_has_retain_filter = true.
+Proof. exact typst_arm_order_table. Qed.
+Check C04_typst_arm_order :
+  typst_arm_order = [("Set"%string, ["target"%string; "args"%string; "condition"%string]);
+                     ("Show"%string, ["selector"%string; "transform"%string])] /\
+  typst_ignored_args_in_text_order = true /\ typst_parse_has_retain_filter = true.
+Print Assumptions C04_typst_arm_order.
+
+(* ---- b629a93: source order is enforced by the code.  For ANY token list and start value the retain filter keeps only
+   tokens that start at or after `covered` and at or after the END of every token kept before them (pairwise disjoint, in
+   source order); hence, whatever tree typst-syntax hands over — inside the range contract or not, any lexer — when
+   Typst::parse returns, its tokens are in source order and pairwise disjoint.  On the implementation the same statement is the
+   oracle class typst_tokens_out_of_order, without exception. *)
+Theorem C04_typst_retain_ordered : forall l c,
+  Forall (fun t => c <= sstart (tspan t)) (typst_retain c l) /\
+  ForallOrdPairs (fun a b => send (tspan a) <= sstart (tspan b)) (typst_retain c l).
+Proof. exact typst_retain_ordered. Qed.
+Check C04_typst_retain_ordered : forall l c,
+  Forall (fun t => c <= sstart (tspan t)) (typst_retain c l) /\
+  ForallOrdPairs (fun a b => send (tspan a) <= sstart (tspan b)) (typst_retain c l).
+Print Assumptions C04_typst_retain_ordered.
+
+Theorem C04_typst_source_order : forall lex bs top toks, typst_parse lex bs top = Ok toks ->
+  ForallOrdPairs (fun a b => send (tspan a) <= sstart (tspan b)) toks.
+Proof. exact typst_parse_source_order. Qed.
+Check C04_typst_source_order : forall lex bs top toks, typst_parse lex bs top = Ok toks ->
+  ForallOrdPairs (fun a b => send (tspan a) <= sstart (tspan b)) toks.
+Print Assumptions C04_typst_source_order.
+
+(* the filter only drops (sub-sequence), and a list already in source order is kept whole: on trees whose tokens come out
+   ordered the filter is the identity, so C04_typst_exact still places every token of tr_spec *)
+Theorem C04_typst_retain_id : forall l c, toks_after c l -> typst_retain c l = l.
+Proof. exact typst_retain_id. Qed.
+Check C04_typst_retain_id : forall l c, toks_after c l -> typst_retain c l = l.
+Print Assumptions C04_typst_retain_id.
 
 (* ====================================================================================================== *)
 (* ---- the known findings as exact characterisations (phase 4): which inputs are affected ---- *)
